@@ -729,7 +729,11 @@ LEVEL_TEXT = ("Proved in Lean 4, for every pair of periods with positive numerat
               "operand to be representable in ITS representation (tpMinus_ne_plus_neg_counterexample: lhs + (-rhs) differs for "
               "an unsigned rhs narrower than the common type, for the most negative signed rhs and for int16 min); "
               "+= -= %= of a duration and += -= of a time_point with a duration of another type (converted first by the "
-              "implicit constructor, assign2_eq). "
+              "implicit constructor, assign2_eq); floor / ceil / round / abs and duration * rep, rep * duration, duration / rep, "
+              "duration % rep on the same representations (floor_eq_builtin, floor_eq_of_result_builtin, ceil_eq_builtin, ceil_eq_of_result_builtin, round_eq_builtin, abs_eq_builtin, "
+              "mulRep_/divRep_/modRep_exact_builtin: hypotheses as in (2) / (3), every intermediate representable; for the scalar "
+              "operators both operands must be values of common_type_t<Rep1, Rep2>, i.e. no negative operand next to an unsigned "
+              "common type). "
               "(4) zero / min / max of duration and time_point are 0 and the least / greatest value of the representation; the ten "
               "named aliases nanoseconds..years have the periods of [time.syn] and signed representations of at least the required "
               "width (complete check). "
@@ -738,8 +742,8 @@ LEVEL_TEXT = ("Proved in Lean 4, for every pair of periods with positive numerat
               "harness' integer representations and proved equal to the model's castCore for every count and every conversion "
               "factor, their undefined-behaviour obligations (product in intmax_t, divisor non-zero, not min / -1) being exactly "
               "'castCore returns a value'. "
-              "Every operation on floating-point representations, and floor / ceil / round / abs / duration (* / %) rep on int16 and "
-              "uint32 representations, are compared differentially only. The model is tied to the current source on every run "
+              "Every operation on floating-point representations is compared differentially only; the time_point forms of floor / "
+              "ceil / round on int16 and uint32 representations are the duration functions by definition of the model. The model is tied to the current source on every run "
               "by running model, implementation, Lean spec and libstdc++ on the same inputs under ASan/UBSan: all 100 ordered "
               "period pairs x all counts in [-2000, 2000] for the four casts (int64), boundary values around 2^31 and 2^62, int32, "
               "int16, uint32 and mixed representations, periods not in lowest terms, double representations bit for bit, the same "
@@ -750,7 +754,8 @@ LEVEL_NOTE = ("Trusted: Lean kernel + propext/Classical.choice/Quot.sound; the h
               "time_since_epoch(), and tpCast/tpFloor/.../tpEq... of the model are by definition the duration functions the source "
               "forwards to); the C14 gcd/lcm model; g++-12/ASan/UBSan; libstdc++ std::chrono as oracle for spec validation. The "
               "hypotheses of the theorems are decidable predicates (RepOk, Builtin, PerOk, DivOk, CommonOk, CastTyOkB, CastIn, "
-              "PairIn, PairTyOkB, RoundIn, ScalarTyOk, MulIn, DivIn) that the generator evaluates with exact integers. "
+              "PairIn, PairTyOkB, RoundIn, RoundTyOkB, ScalarTyOk, ScalarTyOkB, MulIn, MulInB, DivIn, DivInB) that the generator evaluates "
+              "with exact integers. "
               "DEVIATION from the property text ('every tick count whose exact result is representable'), now exact: "
               "duration_cast meets the wording except on the class {CF::num != 1, CF::den != 1, c * CF::num outside intmax_t} "
               "(example: duration_cast<duration<int64, ratio<1,3>>>(duration<int64, ratio<5,7>>{2^60}); the review's example 2^62 "
@@ -766,18 +771,15 @@ LEVEL_NOTE = ("Trusted: Lean kernel + propext/Classical.choice/Quot.sound; the h
               "were added to tetl by two fix commits (fixed findings); if one of them is not declared the harness prints "
               "`missing`, which is a violation.")
 # members modelled and compared on every run but without a Lean theorem yet
-CORRESPONDENCE_ONLY = ["floor / ceil / round, abs, duration (* / %) rep on int16 and uint32 representations (the theorems cover "
-                       "signed 32..64-bit representations there; the binary operators through the common type, the comparisons and "
-                       "the time_point operators are proved for every pair of int8..int64, uint8..uint32)",
-                       "all operations on floating-point representations"]
+CORRESPONDENCE_ONLY = ["all operations on floating-point representations"]
 THEOREMS = {
     "cast": ["C12.GenProps.gen_cast_%s_%s_%s" % (sh, t, f) for sh in ("nd", "d", "n", "id")
              for t in ("i16", "i32", "i64", "u32") for f in ("i16", "i32", "i64", "u32")] + ["C12.Props.durationCast_eq", "C12.Props.durationCast_eq_builtin", "C12.Props.durationCast_eq_of_result",
              "C12.Props.durationCast_eq_narrow_target", "C12.Props.durationCast_exact_iff"],
     "tp_cast": ["C12.Props.tpCast_eq", "C12.Props.tp_casts_forward", "C12.Props.durationCast_eq_of_result"],
-    "floor": ["C12.Props.floor_eq", "C12.Props.floor_eq_of_result"], "tp_floor": ["C12.Props.tpRounding_eq"],
-    "ceil": ["C12.Props.ceil_eq", "C12.Props.ceil_eq_of_result"], "tp_ceil": ["C12.Props.tpRounding_eq"],
-    "round": ["C12.Props.round_eq"], "tp_round": ["C12.Props.tpRounding_eq"],
+    "floor": ["C12.Props.floor_eq", "C12.Props.floor_eq_of_result", "C12.Props.floor_eq_builtin", "C12.Props.floor_eq_of_result_builtin"], "tp_floor": ["C12.Props.tpRounding_eq"],
+    "ceil": ["C12.Props.ceil_eq", "C12.Props.ceil_eq_of_result", "C12.Props.ceil_eq_builtin", "C12.Props.ceil_eq_of_result_builtin"], "tp_ceil": ["C12.Props.tpRounding_eq"],
+    "round": ["C12.Props.round_eq", "C12.Props.round_eq_builtin"], "tp_round": ["C12.Props.tpRounding_eq"],
     "add": ["C12.Props.add_exact", "C12.Props.add_exact_builtin"], "sub": ["C12.Props.sub_exact", "C12.Props.sub_exact_builtin"],
     "cmp": ["C12.Props.eq_eq", "C12.Props.lt_eq", "C12.Props.cmp_derived_eq", "C12.Props.eq_eq_builtin", "C12.Props.lt_eq_builtin",
             "C12.Props.cmp_derived_eq_builtin"],
@@ -785,7 +787,7 @@ THEOREMS = {
     "common": ["C12.Props.common_exact", "C12.Props.common_exact_builtin"], "ctype": ["C12.Props.commonPeriod_eq"],
     "conv": ["C12.Props.common_exact", "C12.Props.convert_exact", "C12.Props.convert_exact_builtin"],
     "tp_conv": ["C12.Props.tpConvert_exact"], "pos": ["C12.Props.pos_eq"],
-    "abs": ["C12.Props.abs_eq"], "neg": ["C12.Props.neg_eq", "C12.Props.assign_builtin"],
+    "abs": ["C12.Props.abs_eq", "C12.Props.abs_eq_builtin"], "neg": ["C12.Props.neg_eq", "C12.Props.assign_builtin"],
     "adda": ["C12.Props.addAssign_eq", "C12.Props.assign_builtin"], "tp_adda": ["C12.Props.tpAssign_eq"],
     "inc": ["C12.Props.addAssign_eq", "C12.Props.assign_builtin"],
     "suba": ["C12.Props.subAssign_eq", "C12.Props.assign_builtin"], "tp_suba": ["C12.Props.tpAssign_eq"],
@@ -793,7 +795,8 @@ THEOREMS = {
     "mula": ["C12.Props.mulAssign_eq", "C12.Props.assign_builtin"], "div": ["C12.Props.div_eq", "C12.Props.div_eq_builtin"],
     "mod": ["C12.Props.mod_exact", "C12.Props.mod_exact_builtin"],
     "diva": ["C12.Props.divAssign_eq"], "moda": ["C12.Props.modAssign_eq"], "modad": ["C12.Props.modAssign_eq"],
-    "mul": ["C12.Props.mulRep_exact"], "divr": ["C12.Props.divRep_exact"], "modr": ["C12.Props.modRep_exact"],
+    "mul": ["C12.Props.mulRep_exact", "C12.Props.mulRep_exact_builtin"], "divr": ["C12.Props.divRep_exact", "C12.Props.divRep_exact_builtin"],
+    "modr": ["C12.Props.modRep_exact", "C12.Props.modRep_exact_builtin"],
     "tp_plus": ["C12.Props.tpPlus_exact", "C12.Props.tpPlus_exact_builtin"],
     "tp_minus": ["C12.Props.tpMinus_exact", "C12.Props.tpMinus_exact_builtin", "C12.Props.tpMinus_ne_plus_neg_counterexample"],
     "tp_diff": ["C12.Props.tpDiff_exact", "C12.Props.tpDiff_exact_builtin"],
